@@ -28,8 +28,14 @@ fn ids() -> BoxedStrategy<u64> {
 }
 
 pub fn page_case() -> BoxedStrategy<PageCase> {
+    // mostly small stores; one case in six is a long history (100-400 batches, long runs of one status) so that
+    // a walk has to skip more than a hundred non-matching entries
+    let small = proptest::collection::vec((ids(), 0u8..3), 0..40).boxed();
+    let big = (0u8..3, proptest::collection::vec((0u64..3000, prop_oneof![9 => Just(0u8), 1 => 1u8..3]), 100..400))
+        .prop_map(|(base, v)| v.into_iter().map(|(id, d)| (id, (base + d) % 3)).collect::<Vec<_>>())
+        .boxed();
     (
-        proptest::collection::vec((ids(), 0u8..3), 0..40),
+        prop_oneof![5 => small, 1 => big],
         proptest::collection::vec(ids(), 0..30),
         proptest::collection::vec((proptest::option::weighted(0.7, ids()), prop_oneof![4 => 1u32..6, 1 => 6u32..50, 1 => Just(u32::MAX)], proptest::option::weighted(0.6, 0u8..3)), 1..20),
         proptest::collection::vec(proptest::collection::vec(ids(), 0..10), 0..4),
@@ -125,7 +131,7 @@ pub fn check_page_case(c: &PageCase, agg: &mut Agg) -> Result<(), String> {
                 break;
             }
             cursor = page.last().copied();
-            if pages > 200 {
+            if pages > bref.len() + 5 {
                 return Err(format!("{what}: walk does not terminate"));
             }
         }
@@ -156,7 +162,7 @@ pub fn check_page_case(c: &PageCase, agg: &mut Agg) -> Result<(), String> {
             pages += 1;
             let full = page.len() as u64 == *limit as u64;
             got.extend(&page);
-            if page.is_empty() || !full || pages > 200 {
+            if page.is_empty() || !full || pages > pref.len() + 5 {
                 break;
             }
             cursor = page.last().copied();
